@@ -2720,6 +2720,7 @@ func (fr *Frame) hintsAtCall(call *ssa.Call) {
 		}
 		if ac.Assume {
 			fr.x.externs[fmt.Sprintf("ASSUMED (unchecked) in %s before call %s#%d: %s", fr.fn.Name(), ac.Callee, ac.N, ac.Text)] = true
+			se.assuming = true // assumed universal facts are also instantiated explicitly at the indices the code uses
 			t := se.eval(ac.Expr).t
 			fr.c().assume(imp(fr.cur.reach, t))
 			continue
